@@ -120,11 +120,12 @@ func TestVerif(t *testing.T) {
 	floors := map[string]int{"A/apply/": 1000, "A/remove-empty": 50, "A/filter": 50, "T/tag": 50, "K/caps": 5, "M/callers=": 100, "S/stress": 20,
 		"E/ops=": 100, "X/projected": 100, "Y/liveness": 80, "L/listing": 100, "D/decoration": 50, "E/same-manifest-overlap": 5,
 		"E/fault/idx-": 20, "E/outcome=idxdel": 3, "E/outcome=err": 10, "E/skipgc": 10, "E/subjects=2": 5, "E/subjects=3": 5,
-		"E/fault/idx-put/lost": 30} // lost responses are model events (EPutLost): the projected lines are judged
+		"E/fault/idx-put/lost": 30, "E/fault/idx-del/lost": 30} // lost responses are model events (EPutLost): the projected lines are judged
 	if run.Thorough() {
 		floors["E/shared-index-drop"] = 20
 		floors["E/fault/man-"] = 20
 		floors["E/fault/idx-put/lost"] = 200
+		floors["E/fault/idx-del/lost"] = 200
 		floors["E/fault/idx-del/404"] = 20
 	}
 	for prefix, min := range floors {
